@@ -101,6 +101,20 @@ def run_shard(ctx):
             continue
         classes[cls] = classes.get(cls, 0) + 1
         run_case(ctx, gd, ev, cls, via="cg" if i % 4 else "id_star", rng=rng)
+    # planted multi-world families (three, four and five worlds in one conjunction; see C08's templates)
+    from .c08 import planted_template
+
+    for i in range(ctx.share({"quick": 1200, "thorough": 12000}[ctx.tier])):
+        gd, out, cond = planted_template(rng)
+        ev = out + cond
+        keys, uniq = set(), []
+        for c in ev:
+            k_ = (c[0], tuple(map(tuple, c[1])))
+            if k_ not in keys:
+                keys.add(k_)
+                uniq.append(c)
+        classes["planted_template"] = classes.get("planted_template", 0) + 1
+        run_case(ctx, gd, uniq, "planted_template", via="cg", rng=rng)
     # wide graphs: the event lives on a small core; the padding nodes are constants in the exact models
     for i in range(ctx.share({"quick": 600, "thorough": 8000}[ctx.tier])):
         core = gg.random_admg(rng, rng.choice([2, 3, 3, 4]))
